@@ -4,6 +4,8 @@ from vlib import common
 
 def key_fn(case, obs, verdict):
     f = case.split(" ")
+    if f[0] == "hook":
+        return "registry-hook:%s-def%s:%s:%s" % (f[1], f[2], f[3], verdict.split("(")[0])
     # shape + requested form + which part of the specification fails
     return "registry:%s-%s-def%s:%s:%s" % (f[1], f[2], f[5], f[7], verdict.split("(")[0])
 
@@ -17,6 +19,7 @@ def run(ctx):
         key_fn=key_fn,
         trusted=[
             "extraction: ExtrOcamlBasic only; OCaml driver ocaml/C18/main.ml (parses the harness's event lines into the model's datatypes) + ocaml/common/conv.ml",
+            "hook cases: core/register + pluginconfig.AddHooks + config.Decode (mapstructure) over the default registry; the verdict compares each product with the specification-side expected_arg (proved equal to the model: C18_new_config, C18_plugin_factory_config)",
             "correspondence harness harness/cmd/hC18: real plugin.Registry (Register/New/NewFactory) with constructors, default functions and fillConf built by reflect.MakeFunc for every shape; events recorded by that user code, pointer identities canonicalised by first appearance",
             "modelled, not verified: Go reflection (reflect.Call/MakeFunc/New/Zero, type identity of func types) is represented by the branch conditions of Model/Registry.v; registration-time type expectations other than 'no default for a constructor without config' are outside the model",
         ],
